@@ -112,6 +112,19 @@ def pc_hiding(case, lo):
                 fails.append("%s: opening proofs of differently blinded commitments are identical" % tag)
         elif lib_s(lo, "diff_seed.%d" % i) == "differ":
             fails.append("%s: commitment without hiding bound depends on the RNG" % tag)
+    # Hyrax: every opened polynomial gets its own masks (dim + 3 fresh draws each)
+    if sch == "hyrax":
+        nv = int(case.fields["num_vars"][0])
+        for t, op in enumerate(case.meta["ops"]):
+            if op["kind"] != "single":
+                continue
+            if lib_s(lo, "pf.%d.fresh_masks" % t) == "no":
+                fails.append("hyrax open of %d polynomials at one point: the masking commitments com_d / com_b repeat across the proofs "
+                             "(responses differ by an unmasked combination of the witnesses)" % len(op["sel"]))
+            d = lib_s(lo, "open_draws.%d" % t)
+            if d is not None and d.lstrip("-").isdigit() and 0 <= int(d) < len(op["sel"]) * ((1 << (nv // 2)) + 3):
+                fails.append("hyrax open of %d polynomials draws %s scalars from the caller's RNG, fewer than the %d its masks need"
+                             % (len(op["sel"]), d, len(op["sel"]) * ((1 << (nv // 2)) + 3)))
     # blinding polynomials: h+2 independent coefficients per blinded commitment (plain and shifted part)
     if sch in ("marlin", "sonic"):
         for i in range(n):
